@@ -1,14 +1,24 @@
 """C06 — earlier definitions keep their meaning across any evaluation history.
 
 translate  : translate/c06_scan.py regenerates lean/SteelVerif/C06/GenScan.lean (the op codes the slot
-             recycler scans) from crates/steel-core/src/values/closed.rs.
-prove      : lake build SteelVerif.C06.Props (+ axiom audit): scan list covers every global-indexing op
-             code, SymbolMap add/get/roll_back laws, the recycler never frees a slot that a surviving
-             global's value mentions.
-correspond : (unit) random add/get/rollback/free sequences on the real `SymbolMap` vs the model, exact
-             state comparison; (history) generated evaluation histories on one real `Engine` (crossing the
-             recycling threshold) vs the specification S (binding cells) and the mechanism model M.
-oracle     : S.  A real≠S difference is a violation unless it falls in the class of an open finding.
+             recycler scans, the fixed-point shape of `recycle`) from crates/steel-core/src/values/closed.rs.
+prove      : lake build SteelVerif.C06.Props (+ axiom audit of every theorem named in Audit.lean):
+             `slots_refine_cells` (all histories: M = symbol map + shadow/free lists + global vector + roll-back +
+             recycler with trigger refines S = binding cells, inside the decidable guards of K06b/K06c/use-before-define),
+             `propagate_refines_partial` (the unit-local constant propagation is invisible inside the guard of K06a),
+             `slots_refine_cells_real` (both), `live_slots_owned` (the invariant), the corollaries, and one decided witness
+             outside each guard = the replay of each open finding; the older unit-level theorems (scan list, add/get,
+             roll_back, recycler closure).
+correspond : (unit) random add/get/rollback/recycle sequences on the real `SymbolMap` vs the model, exact state
+             comparison; (history) generated evaluation histories on one real `Engine` (crossing the recycling
+             threshold) vs the specification S and the model (propagation + M); after EVERY step of a main history every
+             function defined so far is called and every variable read.  The driver evaluates the guards of the theorems
+             on every piece: inside them model = S is re-checked (it is a theorem), outside them a real != S difference
+             is attributed to the finding whose guard failed only if the model predicts the engine's answer.
+             (continuations) generated histories in which a continuation with pending code that reads globals is stored,
+             the globals / procedures are redefined, the recycler runs, reclaimed slots are reused, the continuation is
+             resumed: real engine vs the values the binding-cell semantics demands (finding K06d); corpus/C06/*.scm.
+oracle     : S.  A real != S difference is a violation unless it falls in the class of an open finding.
 """
 import os
 import random
@@ -20,9 +30,9 @@ PID = "C06"
 META = {
     "ready": True,
     "category": "proof",
-    "technique": "Lean 4 theorems about the symbol-map / slot-recycler model (roll-back restores, recycler closure, scan-list coverage from a regenerated table) + differential histories real Engine vs specification",
-    "level_text": "Proved for all inputs (SteelVerif/C06/Props.lean): the recycler's scan list (regenerated from closed.rs on every run) covers every op code that indexes the global vector; SymbolMap.get after add; roll_back after any sequence of definitions (incl. repeated names) restores map, values, shadow list and free list when no recycled slot was reused (Rollback.lean: rollback_restores_partial for every well-formed map, reachable_wf / rollback_restores_reachable for every state built by add / roll_back; the unguarded statement is proved false — not_rollbackRestores, the witness is finding K06c); the recycler's fixed point never frees a slot mentioned by the value of any surviving slot (so freed slots are unreachable from live code). The refinement of whole evaluation histories (slots refine binding cells) is NOT proved; it is checked by running generated histories (define / redefine / set! / calls / compile-time and run-time failures, enough redefinitions to trigger slot recycling) on one real Engine against the executable specification S, and the real SymbolMap against the model on random unit-level operation sequences.",
-    "level_note": "Trusted: Lean kernel, the translator regexes, harness/driver/comparison. Hand list of global-indexing op codes (those the compiler emits in the jit2 configuration). History-level refinement and the compiler's choice of op codes rest on the differential run only.",
+    "technique": "Lean 4 refinement theorem over all evaluation histories (slots refine binding cells: simulation with an abstraction map slot -> cell through SymbolMap.add / roll_back / slot recycler / run of the forms; a second simulation for the unit-local constant propagation) + regenerated recycler scan table + differential histories real Engine vs specification vs model with the theorems' guards evaluated per step",
+    "level_text": "Proved for ALL histories (any length, any number of recycler runs, any initial threshold/epoch; SteelVerif/C06/Props.lean): slots_refine_cells - the mechanism model M (SymbolMap.add/get/roll_back with shadow and free lists, global vector, build failure with roll-back, run-time failure keeping completed definitions, gc_shadowed_roots trigger with threshold doubling/epoch, GlobalSlotRecycler fixed point) gives exactly the results of the specification S (names -> binding cells, fresh cell per define, set! writes the cell, failed build is a no-op) on every history inside three decidable guards: guardC (a build fails only while no reclaimed slot awaits reuse, or defines nothing - negation of K06c), guardB (no definition after an (error ...) form in the unit - K06b), guardU (no definition after a form that reads/calls/assigns in the same unit). live_slots_owned: after every such history there is an injective map slot -> cell under which every function stored in a slot in use mentions only slots that are in use, not on the free list and owned by the cell the specification's function captured (preserved by add, roll-back, recycler run, every form). propagate_refines_partial: the compiler's unit-local constant propagation (modelled: (define x k) into function bodies of the same unit that assign x nowhere) is invisible to S inside the decidable guard histOKA (no form assigns a frozen cell - negation of K06a); slots_refine_cells_real composes both for the pipeline propagate-then-M. slots_refine_cells_any_reuse_order: the same with an oracle permuting the free list before every unit (the real recycler's hash-set order decides which reclaimed slot a definition takes; the result does not depend on it). Corollaries: redefinition_only_affects_later_code, set_visible_to_all (unconditional, from any reachable state), failed_unit_is_noop_partial; the unguarded statements are proved FALSE with decided witnesses that are the replays of K06a, K06b, K06c (k06a_outside_guard, k06b_outside_guard, k06c_outside_guard, not_failedUnitIsNoop, not_rollbackRestores, not_pipeline_refines_unguarded, use_before_define_outside_guard). Unit level: recycler scan list (regenerated from closed.rs on every run) covers every op code that indexes the global vector; the recycler's fixed point never frees a slot mentioned by a surviving slot; roll_back restores map, values, shadow list and free list when no recycled slot was reused. Tie: histories on one real Engine (define / redefine / set! / setters / built-ins in globals / captured closures / failing builds / run-time failures / churn across the recycling threshold / chains through shadowed bindings) compared with S after every step with every function called; the driver evaluates the theorems' guards on every piece - inside them model = S is re-checked, outside them a deviation is attributed to a finding only when the model predicts the engine's answer; the engine's shadowed count / threshold / epoch are compared with the model's at every step (reported); real SymbolMap vs model on random unit-level sequences incl. recycler runs.",
+    "level_note": "Trusted: Lean kernel, the translator regexes, harness/driver/comparison. M is hand-written after compiler/map.rs, values/closed.rs, engine.rs (tied by the unit-level and history-level correspondence, not by translation); the values of M are abstract (a function = the list of global slots / literals its body mentions; the compiler's choice of op codes is C01's matter; hand list of global-indexing op codes in LemmasRecycler.lean). Not modelled: inlining of small procedures into callers of the same unit (same finding class K06a as the constant propagation, which is modelled), lambda-lifted hidden globals (the engine keeps 1-2 more slots alive than M in some recycler runs: reported as free_count_max_excess_of_model; the opposite direction would be reported as a note), continuations (not in the history language of the Lean model: a continuation is a value whose pending code mentions global slots exactly like a function's body, and the recycler has to scan it like one - tied by the translator (continuation_code_scanned, false on the pinned source) and by the generated continuation histories real vs binding-cell semantics: finding K06d). The engine rejects a name defined twice in one unit (BadSyntax) before touching the symbol map; M and S accept it - such units only occur together with a failing form in the generated histories.",
 }
 
 VARS = ["v%d" % i for i in range(8)]
@@ -70,9 +80,10 @@ def to_steel(form):
     raise ValueError(form)
 
 
-def gen_history(rng, npieces, stream):
+def gen_history(rng, npieces, stream, obs_every=7):
     """Returns list of pieces (each a list of abstract forms).  `stream`: 'main' avoids the classes of
-    the open findings; 'k06a' / 'k06b' deliberately produce them."""
+    the open findings; 'k06a' / 'k06b' deliberately produce them.  Every `obs_every`-th step is followed by a piece
+    that calls every function and reads every variable defined so far (1 = after every step)."""
     kind = {}          # name -> 'var' | 'fn' | 'setter'
     counter = [100]
     pieces = [["wrapdef"]]
@@ -147,7 +158,7 @@ def gen_history(rng, npieces, stream):
                 pieces.append(["defc %s %d" % (v, fresh()), "deff %s %s:r" % (f, v)])
                 kind[v], kind[f] = "var", "fn"
                 pieces.append(["set %s %d" % (v, fresh())])
-        if i % 7 == 6:
+        if i % obs_every == obs_every - 1:
             obs = ["call %s" % f for f in defined("fn") + defined("prim")] + ["read %s" % v for v in defined("var")]
             if obs:
                 pieces.append(obs)
@@ -157,7 +168,7 @@ def gen_history(rng, npieces, stream):
     return pieces
 
 
-def gen_chain_history(rng, depth, churn):
+def gen_chain_history(rng, depth, churn, obs_every=20, more_churn=()):
     """Directed family: a live procedure reaches, through `depth` procedures that have all been redefined
     since (so their slots are shadowed), an old binding; then enough shadowing to make the recycler run, then
     new definitions that take whatever slots were freed.  The old chain must keep its meaning."""
@@ -182,9 +193,9 @@ def gen_chain_history(rng, depth, churn):
     rng.shuffle(order)
     for i in order:                                             # every link of the chain is now shadowed
         pieces.append(["deff c%d v0:r" % i] if rng.random() < 0.7 else ["defc c%d %d" % (i, fresh())])
-    for _ in range(churn):
+    for k in range(churn):
         pieces.append(["defc junk %d" % fresh()])
-        if rng.random() < 0.05:
+        if k % obs_every == obs_every - 1:
             pieces.append(["call top"])
     for i in range(2 * depth + 12):
         pieces.append(["deff w%d v0:r" % i] if rng.random() < 0.5 else ["defc w%d %d" % (i, fresh())])
@@ -194,6 +205,15 @@ def gen_chain_history(rng, depth, churn):
     for i in range(depth + 6):
         pieces.append(["defc x%d %d" % (i, fresh())])
     pieces.append(["call top"] + ["call w%d" % i for i in range(3) if False])
+    # further phases: cross the next thresholds (400, 800, then the epoch reset to 100) with the chain still alive
+    for ph, extra in enumerate(more_churn):
+        for k in range(extra):
+            pieces.append(["defc junk %d" % fresh()])
+            if k % (4 * obs_every) == 4 * obs_every - 1:
+                pieces.append(["call top"])
+        for i in range(depth + 6):
+            pieces.append(["defc y%d_%d %d" % (ph, i, fresh())])
+        pieces.append(["call top", "read v0"])
     return pieces
 
 
@@ -259,19 +279,20 @@ def run_histories(ctx, histories, label, stats, known):
         """A batch that does not finish is re-run one history per process; a history that hangs on its own keeps the
         output it produced (the piece in flight shows as `hang`)."""
         rc, out, err = C.run_bin([C.bin_path("c06"), "hist"], "\n".join(
-            "\n".join(" ".join(to_steel(f) for f in p) for p in h) + "\nreset" for h in batch) + "\n", timeout=420)
+            "\n".join(" ".join(to_steel(f) for f in p) for p in h) + "\nreset" for h in batch) + "\n", timeout=240)
         if rc not in (124, -9):
             return rc, out, err
-        outs = []
-        for h in batch:
+        def run_one(h):
             steel = "\n".join(" ".join(to_steel(f) for f in p) for p in h) + "\nreset\n"
-            rc1, out1, err1 = C.run_bin([C.bin_path("c06"), "hist"], steel, timeout=90)
+            rc1, out1, err1 = C.run_bin([C.bin_path("c06"), "hist"], steel, timeout=60)
             if rc1 in (124, -9):
                 lines = out1.splitlines()
                 done = max(0, len(lines) - 1)              # lines[0] is the init line
                 lines += ["hang ## s=0 f=0 t=0 e=0"] * (len(h) - done)
                 out1 = "\n".join(lines) + "\nreset\n"
-            outs.append(out1)
+            return out1
+
+        outs = C.pool_map(run_one, batch, workers=8)
         return 0, "".join(upto_last_reset(o) for o in outs), ""
 
     batches = [histories[i:i + 24] for i in range(0, len(histories), 24)]
@@ -299,35 +320,77 @@ def run_histories(ctx, histories, label, stats, known):
                       no_input=(rrc == 0))
         return
     mh = C.split_on(mout.splitlines(), "reset")
+    dist = stats["dist"]
     for hi, (h, ml, rl) in enumerate(zip(histories, mh, rh)):
         stats["histories"] += 1
         rl = rl[1:]                      # drop the init line
         prev = {"s": int(inits[hi][0]), "f": int(inits[hi][1])}
         k06c = False
+        outside = set()                  # guards of slots_refine_cells that some piece so far is outside of
+        rec_m = rec_r = 0
         for pi, (piece, mline, rline) in enumerate(zip(h, ml, rl)):
             stats["evaluations"] += 1
             m = re.match(r"S=(.*?) M=(.*?) ## (.*)$", mline)
             sres, mres = novoid(m.group(1).strip()), novoid(m.group(2).strip())
+            mt = dict(kv.split("=") for kv in m.group(3).split())
             real, _, tail = rline.partition(" ## ")
             real = real.strip()
             real_norm = "err" if real.startswith("err") else real
             t = dict(kv.split("=") for kv in tail.split())
             if int(t["s"]) < prev["s"]:
                 stats["recycles_seen"] += 1
+                rec_r += 1
             free_before = prev["f"]
             prev = {"s": int(t["s"]), "f": int(t["f"])}
+            # distribution of what the histories exercise (from the model's run and from the real engine's free list)
+            for gname in ("gc", "gb", "gu", "ga"):
+                if mt.get(gname) == "0":
+                    outside.add(gname)
+                    dist["pieces_outside_" + gname] += 1
+            inside = mt.get("ok") == "1" and mt.get("oka") == "1"
+            dist["pieces_inside_guards" if inside else "pieces_after_leaving_guards"] += 1
+            dist["max_frozen_cells"] = max(dist["max_frozen_cells"], int(mt.get("fz", 0)))
+            dist["rollbacks"] += mt.get("rb") == "1"
+            dist["recyclings_model"] += mt.get("rc") == "1"
+            rec_m += mt.get("rc") == "1"
+            dist["units_changed_by_constant_propagation"] += mt.get("pr") == "1"
+            dist["runtime_failures"] += any(f.split()[0] == "rfail" for f in piece) and "fail" not in piece
+            dist["max_shadow_depth"] = max(dist["max_shadow_depth"], int(mt.get("d", 0)))
+            if mt.get("ok") == "1":
+                # policy-level state (DESIGN §3: reported, not a violation): the trigger state must agree exactly; the
+                # number of reclaimed slots may differ when the engine keeps a slot alive that the abstract values of M
+                # do not mention
+                if (int(mt["s"]), int(mt["t"]), int(mt["e"])) != (int(t["s"]), int(t["t"]), int(t["e"])):
+                    dist["trigger_state_differs_inside_guards"] += 1
+                    if len(dist["difference_samples"]) < 3:
+                        dist["difference_samples"].append({"stream": label, "piece": ";".join(piece), "index": pi,
+                                                           "real": tail, "model": m.group(3)[:24]})
+                if int(mt["f"]) != int(t["f"]):
+                    dist["free_count_differs_inside_guards"] += 1
+                    dist["free_count_max_excess_of_model"] = max(dist["free_count_max_excess_of_model"],
+                                                                 int(mt["f"]) - int(t["f"]))
+                    dist["free_count_max_excess_of_engine"] = max(dist["free_count_max_excess_of_engine"],
+                                                                  int(t["f"]) - int(mt["f"]))
             # class of K06c: a build that fails after it (re)defined a name while reclaimed slots were available
-            if free_before > 0 and "fail" in piece and any(f.split()[0] in ("defc", "deff", "defs", "defw") for f in piece):
+            if (free_before > 0 and "fail" in piece and any(f.split()[0] in ("defc", "deff", "defs", "defw") for f in piece)) \
+                    or "gc" in outside:
                 k06c = True
             key = (sres, tuple(piece))
             if any(f.startswith(("call", "read")) for f in piece):
                 stats["seen"].add(key)
+                dist["observing_pieces"] += 1
+                dist["observations"] += sum(1 for f in piece if f.startswith(("call", "read")))
             if mres != sres:
                 stats["model_vs_spec"] += 1
+                if inside:
+                    # slots_refine_cells_real says this cannot happen: the driver does not run the M / S of the theorem
+                    ctx.violation("C06-%s-%d-%d-model.txt" % (label, hi, pi), replay_text(h, pi, real, sres, mres) +
+                                  "# the model (propagation + M) deviates from S INSIDE the guards of slots_refine_cells_real\n")
+                    break
             if real.startswith(("panic", "hang")):
                 # K06b: a name entered into the symbol map by a unit that failed before defining it: assigning or reading
                 # it panics (env.rs unwrap) with the global lock held, and the next evaluation hangs
-                if in_k06b_class(h, pi) and "K06b" in known:
+                if in_k06b_class(h, pi) and "gb" in outside and "K06b" in known:
                     ctx.known_finding("id=K06b %s" % known["K06b"])
                     stats["known_hits"]["K06b"] = stats["known_hits"].get("K06b", 0) + 1
                 else:
@@ -337,9 +400,11 @@ def run_histories(ctx, histories, label, stats, known):
                 continue
             # the real engine disagrees with the specification: is it an open finding?
             cls = None
-            if in_k06a_class(h, pi):
+            if (in_k06a_class(h, pi) or "ga" in outside) and real_norm == mres:
+                # outside the guard of `propagate_refines_partial` (decided by the driver: `ga`; or by the syntactic class
+                # predicate); the model (constant propagation, then slots) predicts the value the engine shows
                 cls = "K06a"
-            elif in_k06b_class(h, pi) and (real_norm == mres or mres != sres):
+            elif in_k06b_class(h, pi) and "gb" in outside and (real_norm == mres or mres != sres):
                 # as for K06c: the model deviates from S here too, but an unassigned slot reads differently in M
                 # (the value the skipped define would have given) and in the engine (void / free identifier / panic)
                 cls = "K06b"
@@ -354,8 +419,7 @@ def run_histories(ctx, histories, label, stats, known):
                 break   # the rest of this history is tainted
             ctx.violation("C06-%s-%d-%d.txt" % (label, hi, pi), replay_text(h, pi, real, sres, mres))
             break
-        else:
-            continue
+        dist["recyclings_per_history"].append(max(rec_m, rec_r))
     if len(stats["samples"]) < 2 and histories:
         h = histories[0]
         stats["samples"].append({"pieces": [";".join(p) for p in h[:12]], "steel": [" ".join(to_steel(f) for f in p) for p in h[:12]],
@@ -376,6 +440,156 @@ def replay_text(h, pi, real, sres, mres):
     lines += ["# steel source of the pieces:"] + ["# " + " ".join(to_steel(f) for f in p) for p in h[: pi + 1]]
     lines += ["# last piece: real engine = %s ; specification S = %s ; mechanism model M = %s" % (real, sres, mres)]
     return "\n".join(lines) + "\n"
+
+
+def gen_kont_history(rng, churn):
+    """Directed family (outside the Form language of the Lean model): a continuation is captured while code that reads
+    globals is pending - in `depth` nested procedures (shape 'fn') or in the top-level code of a definition (shape 'top') -
+    and stored in a global; some of those globals and procedures are then REdefined, `churn` redefinitions of another
+    name follow (churn > 100 crosses the recycling threshold), then fresh definitions that take whatever slots were
+    reclaimed; finally the continuation is resumed.  The pending code was compiled against the OLD bindings and those
+    were never assigned, so it must still read the old values.
+    Returns (lines of Steel source, expected output per line or None = do not compare, index of the first resuming line,
+    whether anything the pending code reads was redefined)."""
+    m = rng.randint(1, 3)
+    shape = rng.choice(["fn", "fn", "top"])
+    vals = [rng.randint(10, 99) for _ in range(m)]
+    lines, exp = [], []
+
+    def emit(src, expected=""):
+        lines.append(src)
+        exp.append(expected)
+
+    for i in range(m):
+        emit("(define kg%d %d)" % (i, vals[i]))
+    emit("(define kk #f)")
+    reads = " ".join("kg%d" % i for i in range(m))
+    shown = " ".join(str(v) for v in vals)
+    if shape == "fn":
+        depth = rng.randint(1, 3)
+        emit("(define (kf1) (list (call/cc (lambda (c) (set! kk c) 0)) %s))" % reads)
+        for d in range(2, depth + 1):
+            emit("(define (kf%d) (list (kf%d) %s))" % (d, d - 1, reads))
+
+        def result(first):
+            r = "(%s %s)" % (first, shown)
+            for _ in range(2, depth + 1):
+                r = "(%s %s)" % (r, shown)
+            return r
+        emit("(kf%d)" % depth, result(0))
+        redefinable = ["(define (kf%d) 0)" % d for d in range(1, depth + 1)]
+    else:
+        emit("(define kr (list (call/cc (lambda (c) (set! kk c) 0)) %s))" % reads)
+        emit("kr", "(0 %s)" % shown)
+        redefinable = []
+    redefs = [("(define kg%d %d)" % (i, 100 + i)) for i in range(m) if rng.random() < 0.7]
+    redefs += [r for r in redefinable if rng.random() < 0.7]
+    rng.shuffle(redefs)
+    for r in redefs:
+        emit(r)
+    for i in range(churn):
+        emit("(define kjunk %d)" % i)
+    for i in range(220 if churn > 100 else 3):
+        emit("(define kw%d %d)" % (i, 1000 + i))
+    first_resume = len(lines)
+    if shape == "fn":
+        emit("(kk 5)", result(5))
+    else:
+        emit("(kk 5)", None)              # re-executes the definition of kr; what the evaluation itself returns is not compared
+        emit("kr", "(5 %s)" % shown)
+    return lines, exp, first_resume, bool(redefs)
+
+
+def run_scm_corpus(ctx, stats, known):
+    """corpus/C06/*.scm: raw Steel histories (one top-level evaluation per line) with expectations `;=> <output>` at the
+    end of a line; `; class: <finding id>` names the finding a deviation belongs to while that finding is open."""
+    cdir = os.path.join(C.VERIF, "corpus", "C06")
+    for fn in sorted(os.listdir(cdir)):
+        if not fn.endswith(".scm"):
+            continue
+        src, exp, cls = [], [], None
+        for l in open(os.path.join(cdir, fn)):
+            l = l.rstrip("\n")
+            mcls = re.match(r";\s*class:\s*(\w+)", l)
+            if mcls:
+                cls = mcls.group(1)
+            if not l.strip() or l.lstrip().startswith(";"):
+                continue
+            code, sep, want = l.partition(";=>")
+            src.append(code.strip())
+            exp.append(want.strip() if sep else None)
+        rc, out, err = C.run_bin([C.bin_path("c06"), "hist"], "\n".join(src) + "\n", timeout=300)
+        stats["dist"]["scm_corpus_histories"] += 1
+        for li, (code, want, r) in enumerate(zip(src, exp, out.splitlines()[1:])):
+            real = r.partition(" ## ")[0].strip()
+            if want is None or real == ("ok " + want).strip():
+                continue
+            if cls and cls in known:
+                ctx.known_finding("id=%s %s" % (cls, known[cls]))
+                stats["known_hits"][cls] = stats["known_hits"].get(cls, 0) + 1
+            else:
+                ctx.violation("C06-corpus-%s" % fn, "\n".join(src[: li + 1]) +
+                              "\n; line %d: real engine = %s ; expected = ok %s\n" % (li + 1, real, want))
+            break
+        if rc != 0:
+            ctx.violation("C06-corpus-%s-crash.txt" % fn, "harness rc=%d\n%s" % (rc, err[-1000:]), no_input=True)
+
+
+def run_kont_family(ctx, rng, n, stats, known):
+    """Continuation histories on the real engine against the values the binding-cell semantics demands."""
+    cases = [gen_kont_history(rng, rng.choice([0, 3, 130, 150])) for _ in range(n)]
+
+    def run_batch(batch):
+        text = "\n".join("\n".join(c[0]) + "\nreset" for c in batch) + "\n"
+        return C.run_bin([C.bin_path("c06"), "hist"], text, timeout=600)
+
+    batches = [cases[i:i + 20] for i in range(0, len(cases), 20)]     # one process serves at most 20 engines (see run_histories)
+    res = C.pool_map(run_batch, batches) if len(batches) > 1 else [run_batch(b) for b in batches]
+    bad_rc = [r for r in res if r[0] != 0]
+    if bad_rc:
+        ctx.violation("C06-kont-crash.txt", "harness rc=%d\n%s" % (bad_rc[0][0], bad_rc[0][2][-1500:]), no_input=True)
+        return
+    chunks = []
+    for r in res:
+        # the harness prints the init line of the NEXT engine after every reset: drop what follows a batch's last reset
+        text = r[1]
+        i = text.rfind("\nreset\n")
+        chunks += C.split_on((text[: i + len("\nreset\n")] if i >= 0 else text).splitlines(), "reset")
+    kd = stats["dist"]["continuation_histories"]
+    for ci, ((lines, exp, first_resume, redefined), chunk) in enumerate(zip(cases, chunks)):
+        kd["run"] += 1
+        rl = chunk[1:]
+        recycled, prev_s, bad = False, None, None
+        for li, (src, e, r) in enumerate(zip(lines, exp, rl)):
+            real, _, tail = r.partition(" ## ")
+            t = dict(kv.split("=") for kv in tail.split())
+            if prev_s is not None and int(t["s"]) < prev_s:
+                recycled = True
+            prev_s = int(t["s"])
+            real = real.strip()
+            if e is None:
+                continue
+            want = ("ok " + e).strip()
+            if real != want:
+                bad = (li, real, want)
+                break
+        kd["with_recycling_before_resume"] += recycled
+        kd["with_redefinition_of_pending_code"] += redefined
+        if bad is None:
+            continue
+        li, real, want = bad
+        replay = "\n".join(lines[: li + 1]) + "\n; line %d: real engine = %s ; binding-cell semantics = %s\n" % (li + 1, real, want)
+        # class of K06d: the continuation is resumed after a recycler run that happened after a binding read by the pending
+        # code was redefined (the recycler does not scan the code a live continuation resumes)
+        if li >= first_resume and recycled and redefined:
+            kd["deviations_in_class_K06d"] += 1
+            if "K06d" in known:
+                ctx.known_finding("id=K06d %s" % known["K06d"])
+                stats["known_hits"]["K06d"] = stats["known_hits"].get("K06d", 0) + 1
+            else:
+                ctx.violation("C06-kont-%d.scm" % ci, replay)
+        else:
+            ctx.violation("C06-kont-%d.scm" % ci, replay)
 
 
 def unit_sequences(rng, n, length):
@@ -431,7 +645,15 @@ def run_units(ctx, seqs, stats):
 
 def run(ctx):
     stats = {"histories": 0, "evaluations": 0, "recycles_seen": 0, "model_vs_spec": 0, "seen": set(),
-             "samples": [], "known_hits": {}, "unit_sequences": 0, "unit_disagree": []}
+             "samples": [], "known_hits": {}, "unit_sequences": 0, "unit_disagree": [],
+             "dist": {"pieces_inside_guards": 0, "pieces_after_leaving_guards": 0, "pieces_outside_gc": 0,
+                      "pieces_outside_gb": 0, "pieces_outside_gu": 0, "pieces_outside_ga": 0, "max_frozen_cells": 0, "rollbacks": 0, "runtime_failures": 0,
+                      "recyclings_model": 0, "units_changed_by_constant_propagation": 0, "max_shadow_depth": 0,
+                      "trigger_state_differs_inside_guards": 0, "free_count_differs_inside_guards": 0,
+                      "free_count_max_excess_of_model": 0, "free_count_max_excess_of_engine": 0, "observing_pieces": 0, "observations": 0,
+                      "recyclings_per_history": [], "difference_samples": [],
+                      "scm_corpus_histories": 0, "continuation_histories": {"run": 0, "with_recycling_before_resume": 0,
+                                                 "with_redefinition_of_pending_code": 0, "deviations_in_class_K06d": 0}}}
     known = {k["id"]: k["text"].split(" ", 5)[-1] for k in ctx.load_known() if "id" in k}
     rc, out = C.sh(["python3", os.path.join(C.VERIF, "translate", "c06_scan.py")], timeout=60)
     translator_ok = rc == 0
@@ -454,11 +676,29 @@ def run(ctx):
     run_histories(ctx, corpus, "corpus", stats, {})
     # main stream (outside every finding class) + finding streams
     nh, ln = (24, 60) if ctx.quick() else (300, 160)
-    run_histories(ctx, [gen_history(rng, ln, "main") for _ in range(nh)], "main", stats, known)
-    chains = [gen_chain_history(rng, d, 130) for d in ((1, 2, 3, 4, 6) if ctx.quick() else (1, 2, 3, 4, 5, 6, 8, 12, 3, 4, 5))]
+    # after EVERY step of a main history every function defined so far is called and every variable read (real vs S;
+    # inside the guards M = S is a theorem and is re-checked on the driver's output)
+    # (thorough tier: a third of the histories observe after every step, the others after every 5th)
+    run_histories(ctx, [gen_history(rng, ln, "main", obs_every=1 if (ctx.quick() or i % 3 == 0) else 5) for i in range(nh)],
+                  "main", stats, known)
+    chains = [gen_chain_history(rng, d, 130, obs_every=3) for d in ((1, 2, 3, 4, 6) if ctx.quick() else (1, 2, 3, 4, 5, 6, 8, 12, 3, 4, 5))]
     run_histories(ctx, chains, "chain", stats, known)
+    # long histories: the second recycler run (threshold 400), in the thorough tier also the third (800) and the run after
+    # the epoch reset (threshold back to 100)
+    longs = [gen_chain_history(rng, 3, 130, obs_every=5, more_churn=(420,))] if ctx.quick() else \
+        [gen_chain_history(rng, d, 130, obs_every=5, more_churn=(420, 830, 130)) for d in (2, 5)]
+    run_histories(ctx, longs, "long", stats, known)
     for stream in ("k06a", "k06b"):
         run_histories(ctx, [gen_history(rng, ln, stream) for _ in range(max(4, nh // 6))], stream, stats, known)
+    run_scm_corpus(ctx, stats, known)
+    run_kont_family(ctx, rng, 12 if ctx.quick() else 120, stats, known)
+    d = stats["dist"]
+    if d["trigger_state_differs_inside_guards"]:
+        ctx.notes.append("shadowed count / threshold / epoch of the model differ from the engine's in %d evaluations inside the guards "
+                         "(policy-level state, see distribution.difference_samples)" % d["trigger_state_differs_inside_guards"])
+    if d["free_count_max_excess_of_engine"]:
+        ctx.notes.append("the engine reclaimed up to %d slots more than the model in some recycler run (the model's values mention "
+                         "slots the engine's values do not)" % d["free_count_max_excess_of_engine"])
     for kid in known:
         if kid not in stats["known_hits"]:
             ctx.notes.append("open finding %s was not reproduced by this run" % kid)
@@ -475,12 +715,19 @@ def run(ctx):
     ctx.coverage = {
         "obligations": pr["obligations"], "discharged": pr["discharged"],
         "checker_cmd": "cd lean && lake build SteelVerif.C06.Props SteelVerif.C06.Rollback && lake env lean SteelVerif/C06/Audit.lean",
+        "theorems": "history level: slots_refine_cells, slots_refine_cells_from, slots_refine_cells_any_reuse_order, live_slots_owned, propagate_refines_partial, slots_refine_cells_real, step_refines, pstep, redefinition_only_affects_later_code, set_visible_to_all, failed_unit_is_noop_partial + decided witnesses k06a/k06b/k06c/use_before_define_outside_guard, not_failedUnitIsNoop, not_pipeline_refines_unguarded; unit level: scan_complete, gen_recycler_fixpoint, get_add, recycle_safe, recycle_frees_only_shadowed, rollback_restores_partial, not_rollbackRestores, reachable_wf",
         "trusted_base": C.TRUSTED_BASE + ["translate/c06_scan.py (regex extraction of the recycler's op-code match)",
-                                          "hand list of global-indexing op codes in Props.lean"],
+                                          "hand list of global-indexing op codes in LemmasRecycler.lean"],
         "evaluations": stats["evaluations"], "distinct_nontrivial": len(stats["seen"]),
-        "rule": "history = pieces from a seeded generator (define/redefine variables and functions that read/call earlier globals, setters, set!, failing builds incl. a name defined twice, run-time failures, churn that crosses the recycling threshold); every 7th piece calls every named function and reads every variable; non-trivial = an observing piece with a distinct (expected result, forms) pair",
+        "continuation_code_scanned_by_recycler": "continuation_code_scanned=True" in out,
+        "rule": "history = pieces from a seeded generator (define/redefine variables and functions that read/call earlier globals, setters, set!, failing builds incl. a name defined twice, run-time failures, churn that crosses the recycling threshold); after EVERY piece of a main history (every 3rd churn piece of a chain history, every 7th piece of the finding streams) a piece calls every named function and reads every variable; the driver evaluates guardC/guardB/guardU/guardA of the theorems per piece; non-trivial = an observing piece with a distinct (expected result, forms) pair",
         "samples": stats["samples"], "histories": stats["histories"],
         "recycling_events_observed_on_real_engine": stats["recycles_seen"],
+        "distribution": dict(stats["dist"], recyclings_per_history={
+            "histories_without": sum(1 for x in stats["dist"]["recyclings_per_history"] if x == 0),
+            "histories_with_1": sum(1 for x in stats["dist"]["recyclings_per_history"] if x == 1),
+            "histories_with_2_or_more": sum(1 for x in stats["dist"]["recyclings_per_history"] if x >= 2),
+            "max": max(stats["dist"]["recyclings_per_history"] or [0])}),
         "model_M_vs_spec_S_differences": stats["model_vs_spec"],
         "unit_sequences": stats["unit_sequences"], "unit_disagreements": len(stats["unit_disagree"]),
         "known_finding_hits": stats["known_hits"], "axioms": pr.get("axioms", {}),
@@ -490,8 +737,16 @@ def run(ctx):
 
 
 def replay(ctx, path):
-    h = [l.strip().split(";") for l in open(path) if l.strip() and not l.startswith("#")]
     C.build_harness(ctx, ["c06"])
+    if path.endswith(".scm"):
+        # raw Steel source, one top-level evaluation per line (continuation histories): real engine only
+        src = [l.rstrip("\n") for l in open(path) if l.strip() and not l.lstrip().startswith(";")]
+        rout = C.run_bin([C.bin_path("c06"), "hist"], "\n".join(src) + "\n", timeout=120)[1]
+        for l, r in zip(src, rout.splitlines()[1:]):
+            if not l.startswith(("(define kjunk", "(define kw")):
+                print("%-70s real: %s" % (l[:70], r[:60]))
+        return 0
+    h = [l.strip().split(";") for l in open(path) if l.strip() and not l.startswith("#")]
     steel = "\n".join(" ".join(to_steel(f) for f in p) for p in h) + "\n"
     rout = C.run_bin([C.bin_path("c06"), "hist"], steel, timeout=120)[1]
     m = re.match(r"init ## s=(\d+) f=(\d+) t=(\d+) e=(\d+)", rout)
